@@ -132,6 +132,13 @@ def main():
     distinct = re.search(r"values\s*\.iter\(\)\s*\.unique\(\)\s*\.count\(\)\s*<\s*2", su)
     facts.append("Definition enum_values_checked_distinct : bool := %s." % ("true" if distinct else "false"))
 
+    vu = strip_comments(read_nontest("value_util.rs"))
+    need(r"fn\s+build_array\s*\(", vu, "value_util::build_array")
+    facts.append("Definition guess_array_length_checked : bool := %s." %
+                 ("true" if re.search(r"elements\.len\(\)\s*!=\s*size", vu) else "false"))
+    facts.append("Definition guess_map_size_checked : bool := %s." %
+                 ("true" if len(re.findall(r"check_anon_map_size\(\s*&?result_mapping", vu)) >= 2 else "false"))
+
     dr = strip_comments(read_nontest("detailed_report.rs"))
     m = need(r'fn\s+get_csv_header_row\(\)\s*->\s*&\'static\s+str\s*\{\s*"([^"]*)"', dr, "CSV header")
     facts.append('Definition csv_header : string := "%s".' % m.group(1).replace("\\n", ""))
